@@ -220,13 +220,14 @@ def _compare_tokens(actual, ref):
     return None
 
 
-def judge_tokens(parser, cfg, inp, lines, tx):
+def judge_tokens(parser, cfg, inp, lines, tx, feats):
     """-> ('ok', Scan, end_pos) | ('lexerr',) | ('unclosed', label); raises Viol."""
     raw = P.scan(lines, cfg)
     stripped_lines = P.strip_lines(lines)
     refs = [raw] if stripped_lines == lines else (
         [P.scan(stripped_lines, cfg), raw] if isinstance(inp, str) else [raw, P.scan(stripped_lines, cfg)])
     ref0 = refs[0]
+    feats |= ref0.feats
     try:
         toks = list(parser.tokenizer.tokenize(inp, "t"))
         err = None
@@ -341,10 +342,12 @@ def walk(node, R, k, endpos, tx, inp, feats, registry, skipped_before):
         if span != exp:
             view = [list(span[0]), list(span[1])]
             expv = [list(exp[0]), list(exp[1])]
-            if span[0] == exp[0] and span[1] > exp[1] and last_empty:
+            following = R[k].start if k < len(R) else endpos
+            if span[0] == exp[0] and span[1] == following:
                 raise Viol("inner-node-ends-after-its-last-token",
-                           f"inner node '{node.name}' whose last child matched nothing ends at the following "
-                           "token (after skipped text) instead of at the end of its last token", view, expv)
+                           f"inner node '{node.name}' ends at the following token (after skipped text) instead "
+                           "of at the end of its last token"
+                           + (" — its last child matched nothing" if last_empty else ""), view, expv)
             if span[0] != exp[0]:
                 raise Viol("inner-node-start", f"inner node '{node.name}' does not start at its first token",
                            view, expv)
@@ -432,7 +435,7 @@ def run_case(text, form, cfg_name, acc, only_grammar=None, report=True):
     outcome = None
     nontrivial = False
     try:
-        res = judge_tokens(plist[0][1], cfg, inp, lines, tx)
+        res = judge_tokens(plist[0][1], cfg, inp, lines, tx, feats)
     except Viol as v:
         viols.append(("C04:" + v.sig, case, v.msg, v.obs, v.exp))
         res = None
@@ -450,7 +453,6 @@ def run_case(text, form, cfg_name, acc, only_grammar=None, report=True):
         else:
             scan, endpos = res[1], res[2]
             feats |= scan.feats
-            nontrivial = any(t.skipped for t in scan.tokens) or any(f.startswith("line>1:") for f in scan.feats)
             labels = []
             for gname, parser in plist:
                 if only_grammar is not None and gname != only_grammar:
@@ -467,6 +469,9 @@ def run_case(text, form, cfg_name, acc, only_grammar=None, report=True):
             bad = [l for l in labels if l not in ("parsed", "rejected")]
             if bad:
                 outcome = bad[0]
+    if "lexical-error" not in feats and "unclosed-span" not in feats:
+        # measured on the reference scan, so the count does not depend on what the code under test does
+        nontrivial = "skipped-token" in feats or any(f.startswith("line>1:") for f in feats)
     if report:
         acc.case(nontrivial=nontrivial, features=sorted(feats), outcome=outcome)
         seen = set()
